@@ -10,8 +10,9 @@ mod methods {
         arg
     }
 
-    fn uint(arg: i64) -> u64 {
-        arg as u64
+    fn uint(arg: i64) -> CelResult<u64> {
+        u64::try_from(arg)
+            .map_err(|_| CelError::value(&format!("int {} is out of range for uint", arg)))
     }
 
     fn uint(arg: f64) -> u64 {
